@@ -813,6 +813,31 @@ def gate_constructions() -> list:
             grid = [(), (2,)]
         for a in grid:
             out.append(('%s%r' % (name, a), (lambda cls=cls, a=a: cls(*a))))
+        # the same constructions spelled with keyword arguments: a cached
+        # gate is looked up under (args, kwargs), so this is a different
+        # construction as far as the instance cache and pickling go
+        for a in grid:
+            if a and len(a) <= len(names):
+                kw = dict(zip(names, a))
+                out.append((
+                    '%s(%s)' % (name, ','.join(
+                        '%s=%r' % kv for kv in kw.items())),
+                    (lambda cls=cls, kw=kw: cls(**kw)),
+                ))
+        # two keyword-built instances of one class travelling together
+        if len(grid) >= 3 and grid[1] and grid[2] and \
+                names and names[0] in ('radix', 'num_levels'):
+            def pair(cls: Any = cls, nm: str = names[0]) -> Any:
+                ga, gb = cls(**{nm: 3}), cls(**{nm: 4})
+                c = Circuit(ga.num_qudits + gb.num_qudits,
+                            list(ga.radixes) + list(gb.radixes))
+                c.append_gate(ga, list(range(ga.num_qudits)),
+                              [0.1] * ga.num_params)
+                c.append_gate(gb, list(range(ga.num_qudits,
+                                             c.num_qudits)),
+                              [0.2] * gb.num_params)
+                return G.CircuitGate(c)
+            out.append(('%s(kw-pair 3,4 in one circuit)' % name, pair))
     return out
 
 
